@@ -290,7 +290,7 @@ class CallMixin:
         c = self.cur_contract
         if c is None or c.modifies is None:
             return []
-        ctx = Ctx(self, path.with_heap(path.entry_heap), self.cur_args)
+        ctx = Ctx(self, path, self.cur_args).old
         return [m for m in c.modifies(ctx) if m[0] != "arg"]
 
     # ------------------------------------------------------------------ calls
